@@ -1,7 +1,7 @@
 (* C10 — Command-line reference substitution is exact.  Property theorems only. *)
 From Coq Require Import String List Bool Permutation.
 Import ListNotations.
-Require Import V.Lib.PyStr V.Args.Model V.Args.Proofs.
+Require Import V.Lib.PyStr V.Args.Model V.Args.Proofs V.Args.Reports V.Args.ValueModel V.Args.Values V.Args.Minimal.
 Open Scope string_scope.
 
 (* For every list of declared references (any number, any spellings, any values), every argument
@@ -58,6 +58,141 @@ Proof.
 Qed.
 Print Assumptions C10_spec_untouched.
 
+(* ---- the two reports that make checkDataReferences reject a workflow
+   (UnusedDataReferenceError / UndeclaredDataReferenceError).
+   Unused: under `separated`, and if no token is a spelling of two different declared references,
+   the list reported unused is exactly (in declaration order) the declared substitutable references
+   none of whose two spellings is a token of the arguments. *)
+Theorem C10_unused : forall refs ps,
+  separated refs ps -> disjoint refs ps ->
+  unused_refs refs (flatten ps) = spec_unused refs ps /\
+  (forall a, In a (unused_refs refs (flatten ps)) <->
+     exists r, In r refs /\ a = r_abs r /\ r_sub r = true /\
+               ~ In (Tok (r_abs r)) ps /\ ~ In (Tok (r_rel r)) ps).
+Proof.
+  intros refs ps S D. pose proof (unused_exact refs ps S D) as E. split; [exact E|].
+  intros a. rewrite E. apply spec_unused_iff.
+Qed.
+Print Assumptions C10_unused.
+
+(* Unresolved: under `separated`, and if every colon of the command line is the colon of a reference
+   token (no colon in literal text or in a substituted value; every token holds ":<method>"), the
+   "possible unresolved reference" flag is raised iff some token of the arguments denotes no declared
+   reference. *)
+Theorem C10_unresolved : forall refs ps,
+  separated refs ps -> colon_free refs ps ->
+  (unresolved (resolve_args refs (flatten ps)) = true <->
+   exists t, In (Tok t) ps /\ forall r, In r refs -> denotes r t = false).
+Proof. exact unresolved_iff. Qed.
+Print Assumptions C10_unresolved.
+
+(* Both for a raw argument string read with the code's own recogniser: its tokens always hold
+   ":<method>", so only the literal text and the values have to be free of colons.  Consequence: the
+   workflow passes the two checks iff every declared substitutable reference is written and every
+   reference token is declared. *)
+Theorem C10_reports_string : forall refs args,
+  separated refs (tokenise args) -> disjoint refs (tokenise args) ->
+  (forall s, In (Lit s) (tokenise args) -> occurs ":" s = false) ->
+  (forall r, In r refs -> r_sub r = true -> occurs ":" (r_val r) = false) ->
+  unused_refs refs args = spec_unused refs (tokenise args) /\
+  unresolved (resolve_args refs args) = spec_unresolved refs (tokenise args).
+Proof.
+  intros refs args S D CL CV. rewrite <- (flatten_tokenise args) at 1 3. split.
+  - apply unused_exact; assumption.
+  - apply unresolved_exact; [exact S|]. repeat split; [exact CL| |exact CV].
+    intros t I. eapply tokenise_wf, I.
+Qed.
+Print Assumptions C10_reports_string.
+
+(* The hypotheses are decidable; the checkers are evaluated on every case of the correspondence run,
+   which compares the implementation's two reports with the token-wise ones where they hold. *)
+Theorem C10_reports_checked : forall refs ps,
+  separatedb refs ps = true ->
+  (disjointb refs ps = true -> unused_refs refs (flatten ps) = spec_unused refs ps) /\
+  (colon_freeb refs ps = true -> unresolved (resolve_args refs (flatten ps)) = spec_unresolved refs ps).
+Proof.
+  intros refs ps S. apply separatedb_sound in S. split; intros H.
+  - apply unused_exact; [exact S|apply disjointb_sound, H].
+  - apply unresolved_exact; [exact S|apply colon_freeb_sound, H].
+Qed.
+Print Assumptions C10_reports_checked.
+
+(* The set of references reported unused does not depend on the declaration order. *)
+Theorem C10_unused_order_independent : forall refs refs' ps a,
+  Permutation refs refs' -> separated refs ps -> disjoint refs ps ->
+  (In a (unused_refs refs (flatten ps)) <-> In a (unused_refs refs' (flatten ps))).
+Proof.
+  intros refs refs' ps a P S D.
+  assert (D' : disjoint refs' ps).
+  { intros r r' t Hr Hr'. apply D; eapply Permutation_in; try eassumption; apply Permutation_sym, P. }
+  rewrite (unused_exact refs ps S D), (unused_exact refs' ps (separated_perm _ _ _ P S) D').
+  split; apply spec_unused_perm; [exact P|apply Permutation_sym, P].
+Qed.
+Print Assumptions C10_unused_order_independent.
+
+(* ---- the values (model of DataReference.resolve, ValueModel.v).
+   Path methods (ref, copy, link, copyout, extract): the value is the location of the producer, or
+   that location joined with the file part exactly as it is written in the declaration (nothing is
+   normalised), whatever the file system holds. *)
+Theorem C10_value_path : forall fs r,
+  is_loop (s_method r) = false -> is_output (s_method r) = false ->
+  arg_value fs r = Some (reference_path r) /\
+  (s_file r = None -> reference_path r = s_loc r) /\
+  (forall f, s_file r = Some f -> s_loc r <> "" -> ends_slash (s_loc r) = false -> prefixb "/" f = false ->
+             reference_path r = s_loc r ++ "/" ++ f).
+Proof.
+  intros fs r L O. split; [apply (value_path fs r L O)|]. unfold reference_path. split.
+  - intros ->. reflexivity.
+  - intros f -> H1 H2 H3. apply path_join_plain; assumption.
+Qed.
+Print Assumptions C10_value_path.
+
+(* Output references to a file: the contents of the file at that path with the trailing newlines
+   removed and nothing else (c = value ++ newlines, the value does not end with a newline); the empty
+   string as long as the file does not exist; resolveArguments raises if it is a directory. *)
+Theorem C10_value_output : forall fs r,
+  s_method r = "output" -> (s_direct r || is_some (s_file r)) = true ->
+  (forall c, lookup fs (reference_path r) = Some (File c) ->
+     exists v t, arg_value fs r = Some v /\ c = v ++ t /\
+                 all_chars (fun a => Ascii.eqb a nl) t = true /\ (forall u, v <> u ++ String nl "")) /\
+  (lookup fs (reference_path r) = None -> arg_value fs r = Some "") /\
+  (lookup fs (reference_path r) = Some Dir -> arg_value fs r = None).
+Proof.
+  intros fs r M D. pose proof (value_output fs r M D) as V. repeat split.
+  - intros c L. rewrite L in V. destruct (rstrip_nl_split c) as [t [E A]].
+    exists (rstrip_nl c), t. repeat split; [exact V|exact E|exact A|apply rstrip_nl_last].
+  - intros L. rewrite L in V. apply V.
+  - intros L. rewrite L in V. apply V.
+Qed.
+Print Assumptions C10_value_output.
+
+(* End to end: for references given as they are declared (producer, file part, method; spellings
+   and values computed by the models of absoluteReference / relativeReference / resolve), under
+   `separated` the resolved command line is the argument string in which every token that is one of
+   the two spellings of a declared substitutable reference is replaced by that reference's own
+   value, and nothing else is changed. *)
+Theorem C10_exact_values : forall fs rs ds ps,
+  to_drefs fs rs = Some ds -> separated ds ps ->
+  resolve_args ds (flatten ps) = spec_own fs rs ps /\
+  (forall s, render_own fs rs (Lit s) = Lit s) /\
+  (forall t r, List.find (fun r => s_denotes r t) rs = Some r ->
+               render_own fs rs (Tok t) = match arg_value fs r with Some v => Lit v | None => Tok t end) /\
+  (forall t, List.find (fun r => s_denotes r t) rs = None -> render_own fs rs (Tok t) = Tok t).
+Proof.
+  intros fs rs ds ps H S. split; [apply (exact_values fs rs ds ps H S)|]. split; [reflexivity|]. split.
+  - intros t r F. apply render_own_value, F.
+  - intros t F. cbn [render_own]. rewrite F. reflexivity.
+Qed.
+Print Assumptions C10_exact_values.
+
+(* ---- the hypothesis `separated` is decidable: the boolean checker evaluated on every case of the run
+   is sound and complete.  (That none of its clauses can be dropped: Refuted.v, C10_*_clause_needed.) *)
+Theorem C10_separated_decidable : forall refs ps,
+  (separatedb refs ps = true <-> separated refs ps) /\
+  (separated refs ps <-> sep_mix refs ps /\ NoDup refs /\ sep_occ refs ps).
+Proof. intros refs ps. split; [apply separatedb_iff|apply separated_clauses]. Qed.
+Print Assumptions C10_separated_decidable.
+
 (* non-vacuity: a stage-1 component that consumes stage1.A, stage1.AB (a name extending A),
    stage0.A (same name in another stage) and the contents of a file of stage0.B; prefix-related and
    equal-across-stage names, both spellings in use, a path appended to a reference *)
@@ -70,10 +205,29 @@ Definition ex_refs : list dref :=
 Definition ex_ps : list piece :=
   [ Lit "-x "; Tok "AB:ref"; Lit " --in="; Tok "stage0.A:ref"; Lit "/f.txt "; Tok "stage1.A:ref";
     Lit " n="; Tok "stage0.B/o.txt:output"; Lit " "; Tok "AB:ref" ].
+Definition ex_srefs : list sref :=
+  [ mk_sref "stage1.A" "A" None "ref" false "/I/stages/stage1/A";
+    mk_sref "stage1.AB" "AB" None "ref" false "/I/stages/stage1/AB";
+    mk_sref "stage0.A" "A" None "ref" false "/I/stages/stage0/A";
+    mk_sref "data/A.txt" "data/A.txt" None "copy" true "/I/data/A.txt";
+    mk_sref "stage0.B" "B" (Some "o.txt") "output" false "/I/stages/stage0/B" ].
+Definition ex_fs : fsys :=
+  [ ("/I/stages/stage0/B", Dir); ("/I/stages/stage0/B/o.txt", File ("42" ++ String nl (String nl ""))) ].
+Definition ex_ps2 : list piece :=
+  [ Tok "stage2.C:ref"; Lit " --in="; Tok "stage0.A:ref"; Lit "/f.txt "; Tok "stage1.A:ref"; Lit " n=";
+    Tok "stage0.B/o.txt:output" ].
 Example C10_nonvacuous :
   separatedb ex_refs ex_ps = true /\ unambiguousb ex_refs ex_ps = true /\
   resolve_args ex_refs (flatten ex_ps) =
     "-x /I/stages/stage1/AB --in=/I/stages/stage0/A/f.txt /I/stages/stage1/A n=42 /I/stages/stage1/AB" /\
   resolve_args (rev ex_refs) (flatten ex_ps) = resolve_args ex_refs (flatten ex_ps) /\
-  unused_refs ex_refs (flatten ex_ps) = [] /\ same_tokenisation ex_ps = true.
+  unused_refs ex_refs (flatten ex_ps) = [] /\ same_tokenisation ex_ps = true /\
+  (* hypotheses of the report theorems; a declared reference that is not written, a token that is not declared *)
+  disjointb ex_refs ex_ps = true /\ colon_freeb ex_refs ex_ps = true /\
+  unresolved (resolve_args ex_refs (flatten ex_ps)) = false /\
+  separatedb ex_refs ex_ps2 = true /\
+  unused_refs ex_refs (flatten ex_ps2) = ["stage1.AB:ref"] /\
+  unresolved (resolve_args ex_refs (flatten ex_ps2)) = true /\
+  (* the same references as they are declared, their values computed by the model of resolve *)
+  to_drefs ex_fs ex_srefs = Some ex_refs.
 Proof. vm_compute. repeat split; reflexivity. Qed.
